@@ -74,6 +74,15 @@ CHECKS["C14"] = dict(
     ref="DESIGN.md 5.5, 8 (C14)",
     technique="TLC model checking of PubSub.tla + replay of TLC-exported paths on the real cluster + TLC trace validation (PubSubTrace.tla)")
 
+CHECKS["C16"] = dict(
+    text="Protocol.tla is the abstract serving machine (every request is answered, the member stays alive) with the minimum arity of every registered command; "
+         "the driver enumerates argument vectors over a token alphabet for every command, seeded random vectors and raw byte streams, sends each over TCP to a real "
+         "two-member cluster in a child process followed by PING, and TLC (ProtocolTrace.tla) accepts the trace only if every step is a reply step, malformed vectors "
+         "got error replies and the member kept serving.",
+    ref="DESIGN.md 5.5, 8 (C16), 9",
+    note=TRUST + "; TLA+ contributes the acceptance condition and the arity grammar, the byte-level inputs come from the Go driver (DESIGN.md section 9)",
+    technique="bounded exhaustive + random input enumeration against a real member process, outcomes validated by TLC against Protocol.tla")
+
 NOT_YET = {}
 
 def main():
